@@ -126,6 +126,14 @@ func (a *Automaton) Run() *Result {
 		cond    Cond
 		matches []int
 		onTrue  []int
+		// a materialised && / || chain: `x := a && b; if x` branches on
+		// phi(false | b) – x true implies b true (and phi(true | b) false
+		// implies b false). implEdge is the If edge on which the implied
+		// operand has value implVal.
+		implEdge    int
+		implVal     bool
+		implMatches []int
+		implOnTrue  []int
 	}
 	ifs := map[*ssa.If]*ifClass{}
 	evs := map[ssa.Instruction][]int{}
@@ -138,6 +146,44 @@ func (a *Automaton) Run() *Result {
 						if m, on := t.If(ic.cond, ifi); m {
 							ic.matches = append(ic.matches, i)
 							ic.onTrue = append(ic.onTrue, on)
+						}
+					}
+				}
+				ic.implEdge = -1
+				if cv, neg := peelNot(ifi.Cond); true {
+					if ph, ok := cv.(*ssa.Phi); ok {
+						var free ssa.Value
+						nFree, nT, nF := 0, 0, 0
+						for _, e := range ph.Edges {
+							if k, ok := e.(*ssa.Const); ok && k.Value != nil {
+								if k.Value.String() == "true" {
+									nT++
+								} else {
+									nF++
+								}
+							} else {
+								nFree++
+								free = e
+							}
+						}
+						if _, isPhi := free.(*ssa.Phi); nFree == 1 && !isPhi && (nT == 0) != (nF == 0) {
+							fc := a.P.CondOf(free)
+							ic.implVal = nT == 0 // others all false: phi true => operand true
+							ic.implEdge = 0
+							if !ic.implVal {
+								ic.implEdge = 1
+							}
+							if neg {
+								ic.implEdge = 1 - ic.implEdge
+							}
+							for i, t := range a.Tracks {
+								if t.If != nil {
+									if m, on := t.If(fc, ifi); m {
+										ic.implMatches = append(ic.implMatches, i)
+										ic.implOnTrue = append(ic.implOnTrue, on)
+									}
+								}
+							}
 						}
 					}
 				}
@@ -258,6 +304,7 @@ func (a *Automaton) Run() *Result {
 				pi = i
 			}
 		}
+		st0 := st // phis of one block read the state before the edge
 		for _, in := range to.Instrs {
 			ph, ok := in.(*ssa.Phi)
 			if !ok {
@@ -273,6 +320,12 @@ func (a *Automaton) Run() *Result {
 					val = True
 				} else if k.Value.String() == "false" {
 					val = False
+				}
+			} else if inner, ok := ph.Edges[pi].(*ssa.Phi); ok {
+				// a flag merged twice (`if c { flag = true }` inside a
+				// switch case): the outer phi takes the inner one's value
+				if tj, ok := phiTracks[inner]; ok {
+					val = st0.get(tj)
 				}
 			}
 			st = st.set(ti, val)
@@ -386,6 +439,20 @@ func (a *Automaton) Run() *Result {
 							v = 3 - v
 						}
 						ns = ns.set(ti, v)
+					}
+					if e == ic.implEdge {
+						for _, ti := range ic.implMatches {
+							for _, kj := range kills[ti] {
+								ns = ns.set(kj, Unseen)
+							}
+						}
+						for j, ti := range ic.implMatches {
+							v := ic.implOnTrue[j]
+							if !ic.implVal {
+								v = 3 - v
+							}
+							ns = ns.set(ti, v)
+						}
 					}
 					ns = enterBlock(b, b.Succs[e], ns)
 					nk := nodeKey{b.Succs[e].Index, ns}
